@@ -197,9 +197,13 @@ func renderMPD(m mpdSpec) []byte {
 	if m.Kind == "dynamic" {
 		typ = "dynamic"
 	}
+	typAttr := fmt.Sprintf(` type="%s"`, typ)
+	if m.Kind == "no_type" {
+		typAttr = ""
+	}
 	fmt.Fprintf(&sb, `<?xml version="1.0" encoding="utf-8"?>
-<MPD xmlns="urn:mpeg:dash:schema:mpd:2011" profiles="urn:mpeg:dash:profile:isoff-live:2011" minBufferTime="PT2S" type="%s" mediaPresentationDuration="PT8S">
-`, typ)
+<MPD xmlns="urn:mpeg:dash:schema:mpd:2011" profiles="urn:mpeg:dash:profile:isoff-live:2011" minBufferTime="PT2S"%s mediaPresentationDuration="PT8S">
+`, typAttr)
 	nPeriods := 1
 	if m.Kind == "two_periods" {
 		nPeriods = 2
